@@ -143,7 +143,7 @@ pub fn world(ch: &mut Chooser) -> World {
     if arr == 2 {
         w.violated.insert("P0004");
     }
-    let mut types = format!("TYPE Level : {} := Low ; Rng : INT {} ; Pt : STRUCT {} END_STRUCT ; Arr : {} ;", enum_opts[e], sub_opts[sb], st_opts[st], arr_s);
+    let mut types = format!("TYPE Level : {} := Low ; Rng : INT {} ; Pt : STRUCT {} END_STRUCT ; Arr : {} ; Str10 : STRING [ 10 ] := 'abc' ; Str5 : STRING [ 5 ] ;", enum_opts[e], sub_opts[sb], st_opts[st], arr_s);
     if alias {
         types += [" LevelAlias : Level ;", " LevelAlias : Level := High ;", " LevelAlias : Level := Nope ;"][alias_k - 1];
     }
@@ -186,7 +186,7 @@ pub fn world(ch: &mut Chooser) -> World {
     let fbtype = ["Callee", "NoFb"][ch.pick("fbtype", &["Callee", "unknown-fb-type"], 1)];
     let kdecl = ch.pick(
         "const",
-        &["INT:=5", "none", "INT-no-init", "enum-no-init", "STRING-no-init", "fb-instance", "enum:=Low", "STRING:='s'", "BOOL-no-init", "two-names-no-init"],
+        &["INT:=5", "none", "INT-no-init", "enum-no-init", "STRING-no-init", "fb-instance", "enum:=Low", "STRING:='s'", "BOOL-no-init", "two-names-no-init", "string-type-with-default-no-init", "string-type-no-init", "string-type:='s'", "located-no-init", "located:=TRUE", "subrange-type-no-init"],
         1,
     );
     let kdecl_s = [
@@ -200,9 +200,17 @@ pub fn world(ch: &mut Chooser) -> World {
         "VAR CONSTANT k : STRING := 's' ; END_VAR",
         "VAR CONSTANT k : BOOL ; END_VAR",
         "VAR CONSTANT k , k2 : INT ; END_VAR",
+        "VAR CONSTANT k : Str10 ; END_VAR",
+        "VAR CONSTANT k : Str5 ; END_VAR",
+        "VAR CONSTANT k : Str5 := 's' ; END_VAR",
+        "VAR CONSTANT k AT %IX1.1 : BOOL ; END_VAR",
+        "VAR CONSTANT k AT %IX1.1 : BOOL := TRUE ; END_VAR",
+        "VAR CONSTANT k : Rng ; END_VAR",
     ][kdecl];
+    // located variables exist in programs only: in a function block the option is the default declaration
+    let (kdecl, kdecl_s) = if host_kind == 0 && matches!(kdecl, 13 | 14) { (0, "VAR CONSTANT k : INT := 5 ; END_VAR") } else { (kdecl, kdecl_s) };
     match kdecl {
-        2 | 3 | 4 | 8 | 9 => {
+        2 | 3 | 4 | 8 | 9 | 10 | 11 | 13 | 15 => {
             w.violated.insert("P0016");
         }
         5 => {
